@@ -52,7 +52,9 @@ class Handler(BaseHTTPRequestHandler):
         with srv.lock:
             idx = srv.counter
             srv.counter += 1
-        beh = srv.script.get(idx, "Normal") if isinstance(srv.script, dict) else "Normal"
+        beh = "Normal"
+        if isinstance(srv.script, dict):
+            beh = srv.script.get(idx) or srv.script.get("all") or "Normal"
         path = self.path.split("?")[0]
         rng = self.headers.get("Range")
         entry = {"i": idx, "m": method, "path": path, "range": rng or "", "beh": beh, "applied": "Normal",
@@ -66,10 +68,10 @@ class Handler(BaseHTTPRequestHandler):
                 pass
             self.close_connection = True
             return
-        if beh in ("NotFound", "ServerError", "Forbidden"):
+        if beh in ("NotFound", "ServerError", "Forbidden") or beh.startswith("Status"):
             entry["applied"] = beh
-            code = {"NotFound": 404, "ServerError": 500, "Forbidden": 403}[beh]
-            self._reply(code, b"" if method == "HEAD" else b"error", {}, method)
+            code = {"NotFound": 404, "ServerError": 500, "Forbidden": 403}.get(beh) or int(beh[6:])
+            self._reply(code, b"" if method == "HEAD" else b"<html><body>error page %d</body></html>" % code, {}, method)
             entry["status"] = code
             return
         fp, enc = self._resolve(path)
